@@ -31,4 +31,41 @@ PROPS = {
         ],
         explanation="Base case + one inductive step per public PeekingLexer operation from an arbitrary state satisfying the representation invariant; each assertion is discharged by the SMT solver on every feasible path of the real SSA of lexer/peek.go.",
     ),
+    "C03": dict(
+        level="model_checking",
+        level_text="bounded model checking by symbolic execution: for every catalogue definition and every input of up to L arbitrary bytes, the real lexer.New + StatefulLexer.Next (rule order, include splicing, Return, Push/Pop, back-references, elision, error cases, span/position bookkeeping) is compared on every feasible path with a reference lexer written from the property statement; the solver decides which byte classes are feasible on each path",
+        level_note="trusted: the reference regex matcher that replaces package regexp on symbolic input (validated against the real regexp natively, and every counterexample is replayed against the real regexp before it is reported), the SSA executor (sampled paths replayed natively on every run), z3; bounds: 22 definitions, inputs <= 3 (quick) / <= 4 (thorough) bytes",
+        runs=[dict(pkg="lexer", files=["lexer/zz_verif_stateful.go"], harness="^VH_C03_",
+                   reach={h: ["error", "tokens"] for h in ["VH_C03_Literal", "VH_C03_Overlap", "VH_C03_PushPop", "VH_C03_Return", "VH_C03_IncludeNested", "VH_C03_Backref"]})],
+        bounds=dict(quick="22 catalogue definitions (literals, overlapping rules, classes, ., multi-byte class, anchors/word boundaries, alternation, empty-matching rule, case folding, Push/Pop, Return, Include first/middle/nested, Pop and Return in Root, optional group in a Push rule, back-references incl. missing group and metacharacter group) x all inputs of <= 3 arbitrary bytes (incl. invalid UTF-8)",
+                    thorough="same catalogue x all inputs of <= 4 arbitrary bytes"),
+        outside="definitions outside the catalogue; inputs longer than the bound; correctness of package regexp itself; back-reference groups containing bytes >= 0x80",
+        assumptions=["package regexp is replaced on symbolic input by the engine's reference matcher (refre.go), leftmost-first semantics over regexp/syntax trees",
+                     "map iteration order in lexer.New is insertion order (New sorts keys before numbering symbols)"],
+        explanation="Differential check of the real stateful lexer against a reference lexer derived from the property statement, on symbolic input bytes.",
+    ),
+    "C04": dict(
+        level="model_checking",
+        level_text="bounded model checking by symbolic execution: token values, offsets, ordering, EOF placement, line/column and filename are asserted from the input alone on every feasible path of the real StatefulLexer.Next for all inputs up to L bytes, plus a unit obligation for Position.Advance from an arbitrary position over an arbitrary span",
+        level_note="trusted: as C03; the text/scanner-based lexer is outside the claim (stdlib scanner not encoded); generated lexers are covered by the C05 run",
+        runs=[dict(pkg="lexer", files=["lexer/zz_verif_stateful.go"], harness="^VH_C04_",
+                   reach={"VH_C04_Advance": ["same-line", "new-line"], "VH_C04_Literal": ["ok", "error"], "VH_C04_Multibyte": ["ok", "error"]})],
+        bounds=dict(quick="Position.Advance: any 64-bit start position x any span of <= 4 arbitrary bytes; 9 catalogue definitions x all inputs of <= 3 arbitrary bytes",
+                    thorough="Position.Advance: spans <= 5 bytes; inputs <= 4 bytes"),
+        outside="text/scanner-based lexer (content produced by the stdlib scanner); inputs longer than the bound",
+        assumptions=["package regexp replaced by the reference matcher on symbolic input"],
+        explanation="Position and losslessness invariants asserted on every path of the runtime lexer; Advance checked as a unit against its specification.",
+    ),
+    "C07": dict(
+        level="model_checking",
+        level_text="bounded model checking by symbolic execution: (1) whole runs from the initial state for all inputs up to L bytes: no panic, non-empty tokens, <= len+1 Next calls, EOF idempotent, Next after an error does not panic; (2) one inductive step of Next from an arbitrary lexer state (any reachable-shaped stack of depth <= 2, arbitrary groups, arbitrary remaining input): no panic and the stack invariant is preserved",
+        level_note="trusted: as C03; the inductive step covers histories of any length only for the stack shapes in the bound (depth <= 2, <= 2 groups of <= 1 byte)",
+        runs=[dict(pkg="lexer", files=["lexer/zz_verif_stateful.go"], harness="^VH_C07_",
+                   reach={"VH_C07_Run_Literal": ["eof", "error"], "VH_C07_Run_PushPop": ["eof", "error"], "VH_C07_Step_PushPop": ["token"]})],
+        bounds=dict(quick="12 definitions x inputs <= 3 bytes (whole run); 6 definitions x stack depth <= 2 x <= 2 groups of <= 1 byte x remaining input <= 3 bytes (step)",
+                    thorough="inputs <= 4 bytes"),
+        outside="generated lexers (C05 run); definitions outside the catalogue; termination beyond the instruction budget is reported as inconclusive, not assumed",
+        assumptions=["package regexp replaced by the reference matcher on symbolic input"],
+        explanation="No-panic / progress / EOF-idempotence obligations on whole runs and on one inductive step from an arbitrary state.",
+    ),
 }
